@@ -206,9 +206,52 @@ func buildMonitor(p *core.Program, lk *Analysis, eff *effects.Analysis, named *t
 				m.Own[c][rel] = true
 			}
 		}
+		// private helpers of this side: unexported domain functions called by a waiter of c and by no waiter of
+		// another cond (a store of the side's own cursor moved into `advanceConsumer`): their stores are the side's
+		helpers := map[*ssa.Function]bool{}
+		for changed := true; changed; {
+			changed = false
+			for fn := range m.Domain {
+				if m.Waiters[c][fn] || helpers[fn] || fn.Object() == nil || fn.Object().Exported() || len(m.Responsible[fn]) == 0 {
+					continue
+				}
+				mine, other := false, false
+				for _, site := range p.Callers(fn) {
+					caller := site.Parent()
+					if m.Waiters[c][caller] || helpers[caller] {
+						mine = true
+					}
+					for _, c2 := range conds {
+						if c2 != c && m.Waiters[c2][caller] && !m.Waiters[c][caller] {
+							other = true
+						}
+					}
+				}
+				if mine && !other {
+					helpers[fn] = true
+					changed = true
+				}
+			}
+		}
+		for fn := range helpers {
+			for rel := range m.Responsible[fn] {
+				m.Own[c][rel] = true
+			}
+		}
 		m.Role[c] = map[*ssa.Function]bool{}
 		for fn := range m.Waiters[c] {
 			m.Role[c][fn] = true
+		}
+		for fn := range helpers {
+			m.Role[c][fn] = true
+		}
+		// a function that calls a helper of this side acts for this side
+		for fn := range m.Domain {
+			for _, call := range ir.Calls(fn) {
+				if callee := call.Common().StaticCallee(); callee != nil && helpers[callee] {
+					m.Role[c][fn] = true
+				}
+			}
 		}
 		for fn, locs := range m.Responsible {
 			if !m.Domain[fn] {
